@@ -251,6 +251,10 @@ def check(ctx):
     from ..modlookup import lookup_obligations
     ctx.floor("R5", "module lookups analysed", lookup_obligations(ctx, repo, "GeckoSimulator.set_snapshot", "R5"), 3)
 
+    ctx.rule("R6", "served unchanged: the simulator's answer to a status-block request delivers exactly the requested bytes of the loaded block, for every length from several starts (C01's concrete segment-chain interpretation borrowed)")
+    from .c01 import simulator_chain_concrete
+    simulator_chain_concrete(ctx.borrowed("R6", "C01"), repo, repo.method("GeckoSimulator", "_on_status_block"))
+
     snap_init = repo.method("GeckoSnapshot", "__init__")
     funcs = None
     for n in ast.walk(snap_init.node):
